@@ -18,7 +18,7 @@ CONSTANTS
   FocusMax = 4
   FixO1 = FALSE
   FixRetry = TRUE
-  FixRetryList = FALSE
+  FixRetryList = TRUE
   MaxTried = 64
 INVARIANTS Q3
 VIEW MCView
